@@ -71,7 +71,15 @@ def worker(wid, jobs, out):
             open(fp, "w").write("\n".join(lines))
             rec = {"file": path, "line": i + 1, "op": what, "old": old.strip(), "new": nl.strip()}
             try:
-                p = subprocess.run(["cargo", "test", "--offline", "--lib", "-q"], cwd=copy, env=env, stdout=subprocess.PIPE, stderr=subprocess.STDOUT, text=True, timeout=300)
+                pp = subprocess.Popen(["cargo", "test", "--offline", "--lib", "-q"], cwd=copy, env=env, stdout=subprocess.PIPE, stderr=subprocess.STDOUT, text=True, start_new_session=True)
+                try:
+                    pp.communicate(timeout=240)
+                except subprocess.TimeoutExpired:
+                    import signal
+                    os.killpg(pp.pid, signal.SIGKILL)
+                    pp.communicate()
+                    raise
+                p = pp
                 if p.returncode != 0:
                     rec["status"] = "killed-by-build-or-unit-tests"
                 else:
